@@ -33,10 +33,11 @@ Fixpoint find {A} (t : tid) (l : list (tid * A)) : option A :=
   | (k, v) :: r => if Nat.eqb k t then Some v else find t r
   end.
 
+(* keys are unique in a Hashtable (setv never duplicates one), so "remove the entry of t" = "drop every entry whose key is t" *)
 Fixpoint remove {A} (t : tid) (l : list (tid * A)) : list (tid * A) :=
   match l with
   | [] => []
-  | (k, v) :: r => if Nat.eqb k t then r else (k, v) :: remove t r
+  | (k, v) :: r => if Nat.eqb k t then remove t r else (k, v) :: remove t r
   end.
 
 Fixpoint setv {A} (t : tid) (v : A) (l : list (tid * A)) : list (tid * A) :=
